@@ -3,6 +3,35 @@ TRUST = ("trusted: CPython ast; the checker's own engines; for table rules the i
          "against the real loaders at development time). Known findings are listed in KNOWN_FINDINGS.txt. ")
 
 META = {
+    "C05": {
+        "engine": "sa: frame type system, pairing analysis, table model, constant folding, (via C04) torsion move-set table",
+        "technique": "two-point frame lattice {Structure, Template} typing of every placement call with lockstep/key/count "
+                     "checks; exhaustive geometric sanity scan of all templates and patched templates; constant folding of "
+                     "rotation scans; hydrogen rows of the torsion move-set table",
+        "text": "every quat.find_coordinates call superposes Template points onto Structure points and places a Template "
+                "point, its two lists are filled in lockstep from one key and its literal n equals the number of pairs (two "
+                "reviewed exceptions with reasons); in all reachable templates and patched templates bonds are symmetric, "
+                "each hydrogen has exactly one parent at 0.90-1.15 A, tetrahedral H-X-H angles lie in 107-112 degrees and the "
+                "three nearest anchors of every 3-point hydrogen are non-collinear; every constant-angle rotate_tetrahedral "
+                "scan sums to a whole number of turns (data-dependent single rotations only where the rotated atom's one "
+                "other neighbour is the hydrogen just created); hydrogens are rotated by a torsion change iff they lie "
+                "beyond the rotated bond. Numerical fit quality, clash-driven choices and atom coincidence are not decided.",
+        "note": TRUST,
+    },
+    "C15": {
+        "engine": "sa: E6 algebraic normal forms (sympy expand/Groebner), structural extraction",
+        "technique": "translation of straight-line rotation arithmetic to polynomials and identity checking by expansion / "
+                     "reduction modulo c^2+s^2=1, |l|=1; symbolic evaluation of dihedral's vector algebra on a canonical "
+                     "frame; capture-based extraction of call-site frames and of the translate/rotate/translate chain",
+        "text": "proves for all inputs: q2mat(q) satisfies U*U^T=|q|^4 I and det=|q|^6 (proper rotation, never a mirror); the "
+                "matrix of qchichange composed with rotmol's index convention equals the right-handed Rodrigues form, is "
+                "orthogonal with det 1 and fixes the axis; q^T C q equals the overlap of rotmol(x, q2mat(q)) with y (Horn's "
+                "identity) for the cmat entries as written, jacobi sorts ascending and the last column is taken; call sites "
+                "rotate about atom3-atom2 relative to atom2 with angle requested-current, and dihedral() measures +phi about "
+                "the same axis; the fit is translate(-template centre), rotate, translate(+structure centre) in the order "
+                "find_coordinates forwards. Jacobi convergence/accuracy and hence the numeric tolerances are NOT decided.",
+        "note": TRUST + "sympy is used as a polynomial normaliser only (no solver).",
+    },
     "C16": {
         "engine": "sa: pairing/symmetry analysis, guard engine (orderings), constant scan, opaque-use analysis, reachability formulas",
         "technique": "structural conservation argument for PEOE: symmetric adjacency + read-then-write phases + "
